@@ -315,7 +315,7 @@ def shards(tier, seed):
         rich = any(getattr(type(obj), item, None) is not None for item in ('ja3', 'hassh', 'key_tag'))
         short = name.replace('cryptoparser.', '')
         text = windows.is_text_class(name)
-        positions = list(range(len(data))) if (thorough and len(data) <= 40) else [rng.randrange(len(data))]
+        positions = windows.thorough_positions(len(data), rng) if thorough else [rng.randrange(len(data))]
         if rich and not thorough:
             positions = sorted(set(positions + [rng.randrange(len(data)) for _ in range(3)]))
         for pos in positions:
